@@ -273,7 +273,7 @@ def render_session(ctx, case):
     from harness import c08
     c08._load_protocols()
     cmd, nlines = case if isinstance(case, tuple) else (case, 11)
-    lines = ['[1000.100]  -> wl_display@1.get_registry(new id wl_registry@2)', 'some "chatter" \\ here', '[1000.200] wl_registry@2.global(1, "wl_seat", 7)',
+    lines = ['[1000.100]  -> wl_display@1.get_registry(new id wl_registry@2)', 'col1\tcol2\t\tend', 'some "chatter" \\ here', '[1000.200] wl_registry@2.global(1, "wl_seat", 7)',
              '[1000.300]  -> wl_registry@2.bind(1, "wl_seat", 7, new id [unknown]@3)', '[1003.300] wl_seat@3.capabilities(3)', '[1003.400]  -> wl_display@1.sync(new id wl_callback@4)',
              '[1003.500] wl_display@1.delete_id(4)', '[1003.600] wl_nope@9.x(nil, array, fd 5, -1.5, "it\'s")', '[1003.700] wl_seat@3.name("üñí")',
              '[1003.800]  -> wl_seat@3.get_pointer(new id wl_pointer@5)', '[1003.900] wl_pointer@5.button(1, 2, 272, 1)']
